@@ -59,6 +59,7 @@ struct Plan {
 	uint32_t p_num = 0, p_den = 1; int park_site = 0; uint32_t park_num = 0, park_den = 1;
 	bool replay = false;
 	int audit_every = 0;      // >0: /proc/self/maps audit after every n-th op
+	bool fullmem_model = false; // shipped configuration: the fresh-object model may build a second full dataset
 	uint64_t items = 0;       // dataset item count of the configuration the plan was generated for (0 = unknown)
 	std::string note;
 };
